@@ -536,6 +536,35 @@ func Contains(s, sub *Term) *Term {
 				return True
 			}
 		}
+		// Distribution: if every two non-constant parts are separated by a
+		// constant none of whose characters occurs in sub, an occurrence of sub
+		// cannot span a separator, so it lies inside one part.
+		ok := true
+		prevVar := false
+		for _, p := range s.Args {
+			if p.IsConst() {
+				if strings.ContainsAny(p.S, sub.S) {
+					ok = false
+					break
+				}
+				prevVar = false
+			} else {
+				if prevVar {
+					ok = false
+					break
+				}
+				prevVar = true
+			}
+		}
+		if ok {
+			var ds []*Term
+			for _, p := range s.Args {
+				if !p.IsConst() {
+					ds = append(ds, Contains(p, sub))
+				}
+			}
+			return Or(ds...)
+		}
 	}
 	return App("str.contains", Bool, s, sub)
 }
